@@ -1,6 +1,7 @@
 import Driver.Json
 import Driver.OpsMachines
 import ChipFiring.Model.Machines
+import ChipFiring.Model.Txt
 open Lean CF
 namespace Drv
 
@@ -30,5 +31,17 @@ def opRt (j : Json) : M Json := do
     let faults := Json.mkObj [("raised", jNat 0), ("json_prefix_not_none", jNat 0), ("malformed", jNat 0)]
     pure <| Json.mkObj ([("dict", dig), ("json", dig)] ++ (if getBoolD j "txt" true then [("txt", dig)] else [])
       ++ [("missing", Json.str "NONE"), ("faults", faults)])
+
+/-- the field layer of the TXT format on arbitrary strings: what the writer puts after the record
+    prefix, and what the reader makes of a given text -/
+def opTxtFields (j : Json) : M Json := do
+  let names ← (← getArr j "names").toList.mapM fun e => e.getStr?
+  let text ← (← j.getObjVal? "text").getStr?
+  let line := ' ' :: Txt.joinFields (names.map String.toList)
+  let str (l : List Char) : Json := Json.str (String.ofList l)
+  pure <| Json.mkObj [("line", str line),
+    ("parsed_line", Json.arr ((Txt.parseFields line).map str).toArray),
+    ("parsed_text", Json.arr ((Txt.parseFields text.toList).map str).toArray),
+    ("clean", Json.arr ((names.map fun s => Json.bool (Txt.cleanField s.toList)).toArray))]
 
 end Drv
